@@ -156,6 +156,7 @@ struct SSCfg {
     bool useParam = false;           // declares top-level params P1 (string) P2 (number)
     bool stripSpace = false;
     bool docFn = false;              // document('aux.xml')
+    bool dupExtPrefix = false;       // extension-element-prefixes lists two prefixes bound to one namespace URI
     std::string sortLang = "de", sortCase;   // "sortlang" feature: lang and case-order ("" = absent)
 };
 
@@ -171,7 +172,7 @@ inline const std::vector<std::string>& allFeatures() {
         "name", "counts", "strval", "axes", "revaxes", "pos", "key", "keyids", "id", "num-single", "num-multi", "num-any", "num-nocount",
         "fmtnum", "fmtnum-df", "arith", "strfn", "copyof", "copy", "rtf", "nodeset", "calltmpl", "choose", "elemattr", "attrset",
         "lre", "message", "modes", "sort2", "comment-pi", "exslt-set", "exslt-math", "exslt-str", "genid", "lang", "sysprop", "param", "ifbool",
-        "union", "preds", "valnum", "apply-imports", "text-nodes", "ns-axis", "doctype-node", "attr-nodes", "number-value", "bigfmt", "xalan-ext", "docfn", "avt-ns", "extfn", "paramuse", "gate", "num-gate", "sortlang", "num-value", "lazyvar"
+        "union", "preds", "valnum", "apply-imports", "text-nodes", "ns-axis", "doctype-node", "attr-nodes", "number-value", "bigfmt", "xalan-ext", "docfn", "avt-ns", "extfn", "paramuse", "gate", "num-gate", "sortlang", "num-value", "lazyvar", "manyrtf", "deeprec", "padsupp"
     };
     return f;
 }
@@ -238,6 +239,12 @@ struct SSGen {
         if (on("lazyvar")) perNode += "<xsl:if test=\"@v &gt; 30\">" + o("lazyvar", vo("$LAZY1") + "," + vo("count($LAZY2)")) + "</xsl:if>";
         if (on("sortlang")) perNode += "<o f=\"sortlang\" n=\"{@id}\"><xsl:for-each select=\"*\"><xsl:sort select=\"substring('aAbBcC', (count(@*) + string-length(@rk)) mod 6 + 1, 1)\" lang=\"" + c.sortLang + "\"" + (c.sortCase.empty() ? std::string() : " case-order=\"" + c.sortCase + "\"") + "/><xsl:value-of select=\"concat(substring('aAbBcC', (count(@*) + string-length(@rk)) mod 6 + 1, 1), @id, ' ')\"/></xsl:for-each></o>";
         if (on("num-value")) perNode += o("num-value", "<xsl:number value=\"count(preceding::*) div 2\"/>|<xsl:number value=\"(count(preceding::*) + 1) div 4\" format=\"a\"/>|<xsl:number value=\"count(*) + 0.5\" format=\"I\"/>|<xsl:number value=\"@v * 1.5\" format=\"01\"/>");
+        // many result tree fragments alive at the same time (arena blocks of the fragment allocators hold 10)
+        if (on("manyrtf")) { std::string vars, uses; for (int i = 0; i < 13; ++i) { std::string n = "mr" + std::to_string(i); vars += "<xsl:variable name=\"" + n + "\"><r" + std::to_string(i) + "><xsl:value-of select=\"@id\"/></r" + std::to_string(i) + ">t" + std::to_string(i) + "</xsl:variable>"; uses += "<xsl:value-of select=\"string-length($" + n + ")\"/>,"; }
+            perNode += "<xsl:if test=\"count(preceding::*) mod 4 = 0\">" + vars + "<o f=\"manyrtf\" n=\"{@id}\">" + uses + "<xsl:copy-of select=\"$mr12\"/></o></xsl:if>"; }
+        // more than 40 numbers and strings alive at once, released back to back (the XObject factory caches 40)
+        if (on("deeprec")) { extraTemplates += "<xsl:template name=\"deep\"><xsl:param name=\"n\" select=\"0\"/><xsl:param name=\"s\" select=\"''\"/><xsl:choose><xsl:when test=\"$n &lt; 55\"><xsl:call-template name=\"deep\"><xsl:with-param name=\"n\" select=\"$n + 1\"/><xsl:with-param name=\"s\" select=\"concat($s, 'x')\"/></xsl:call-template></xsl:when><xsl:otherwise><xsl:value-of select=\"concat($n, ':', string-length($s))\"/></xsl:otherwise></xsl:choose></xsl:template>";
+            perNode += "<xsl:if test=\"not(ancestor::*) or @v = 3\"><o f=\"deeprec\" n=\"{@id}\"><xsl:call-template name=\"deep\"><xsl:with-param name=\"n\" select=\"count(*)\"/></xsl:call-template></o></xsl:if>"; }
         if (on("ifbool")) perNode += "<o f=\"ifbool\" n=\"{@id}\"><xsl:if test=\"*\">K</xsl:if><xsl:if test=\"@v\">V</xsl:if><xsl:if test=\"string(@k)\">S</xsl:if><xsl:if test=\"number(@v)\">N</xsl:if><xsl:if test=\"@v = */@v\">E</xsl:if><xsl:if test=\"@v != */@v\">D</xsl:if><xsl:if test=\"*/@v &gt; 10\">G</xsl:if><xsl:if test=\"@k = 'k1' or @k = 'k2' and @v &gt; 3\">P</xsl:if></o>";
         if (on("union")) perNode += "<o f=\"union\" n=\"{@id}\"><xsl:for-each select=\"following-sibling::*[1] | preceding-sibling::*[1] | .. | * | @k\"><xsl:value-of select=\"concat(name(), ':', @id, ' ')\"/></xsl:for-each></o>";
         if (on("preds")) perNode += o("preds", vo("*[2]/@id") + "," + vo("*[last()]/@id") + "," + vo("*[@v][1]/@id") + "," + vo("*[position() &gt; 1][@k='k1']/@id") + "," + vo("(//*)[5]/@id") + "," + vo("descendant::*[3]/@id") + "," + vo("ancestor-or-self::*[last()]/@id") + "," + vo("preceding::*[1]/@id") + "," + vo("(preceding::*)[1]/@id") + "," + vo("../*[@id = current()/@id]/@rk"));
@@ -249,6 +256,14 @@ struct SSGen {
             perNode += "<o f=\"modes\" n=\"{@id}\"><xsl:apply-templates select=\"*\" mode=\"m2\"><xsl:sort select=\"@rk\" data-type=\"number\" order=\"descending\"/></xsl:apply-templates>|<xsl:apply-templates select=\"*[1]\" mode=\"nomode\"/></o>"; }
         if (on("apply-imports") && c.useImport) { extraTemplates += "<xsl:template match=\"*\" mode=\"imp\">over(<xsl:apply-imports/>)</xsl:template>"; perNode += "<o f=\"apply-imports\" n=\"{@id}\"><xsl:apply-templates select=\".\" mode=\"imp\"/></o>"; }
         if (on("docfn") && c.docFn) perNode += "<xsl:if test=\"not(ancestor::*)\">" + o("docfn", vo("count(document('aux.xml')//*)") + "," + vo("document('aux.xml')/aux/x[2]") + "," + vo("count(document('')/*/*)  &gt; 0") + "," + vo("count(document('aux.xml')/aux/x | //*[1])")) + "</xsl:if>";
+        // ---- a supplementary / 3-byte character placed so that it straddles the end of the serializer's 512-unit buffer:
+        // with UTF-8 output the bytes before <pad>'s text are known exactly (declaration, <out total="N">, <pad>)
+        if (on("padsupp")) {
+            size_t prefix = 38 + 12 + 21 + std::to_string(d.nElems).size() + 2 + 5; /* declaration, <out xmlns:p1="urn:x-ns1" total="N">, <pad> */ int j = (int)g.below(5); bool four = g.chance(2, 3);
+            size_t fill = 512 * (1 + g.below(2)) - prefix - (four ? 4 : 3) + j;      // j = 0: fits exactly; 1..3: straddles; 4: next buffer
+            std::string filler(fill, 'f'); for (size_t i = 7; i < filler.size(); i += 37) filler[i] = ' ';
+            rootBody += "<pad>" + filler + (four ? "\xF0\x9F\x98\x80" : "\xE2\x82\xAC") + "tail" + (four ? "\xF0\x9D\x84\x9E" : "\xE4\xB8\xAD") + "</pad>";
+        }
         // ---- root-level observations ----
         if (on("doctype-node")) rootBody += "<o f=\"doctype-node\" n=\"/\">" + vo("count(/node())") + "," + vo("count(/*)") + "," + vo("count(/comment())") + "," + vo("count(/processing-instruction())") + "</o>";
 
@@ -264,6 +279,7 @@ struct SSGen {
         std::string s = "<?xml version=\"1.0\"?>\n<xsl:stylesheet version=\"1.0\" xmlns:xsl=\"http://www.w3.org/1999/XSL/Transform\"";
         s += std::string(" xmlns:p1=\"") + NS1 + "\" xmlns:p2=\"" + NS2 + "\"";
         s += " xmlns:xalan=\"http://xml.apache.org/xalan\" xmlns:exsl=\"http://exslt.org/common\" xmlns:set=\"http://exslt.org/sets\" xmlns:math=\"http://exslt.org/math\" xmlns:str=\"http://exslt.org/strings\" xmlns:nofn=\"urn:x-nofn\" xmlns:ext=\"urn:x-ext\"";
+        if (c.dupExtPrefix) s += " xmlns:xe1=\"urn:x-extelem\" xmlns:xe2=\"urn:x-extelem\" extension-element-prefixes=\"xe1 xe2\"";
         s += " exclude-result-prefixes=\"xalan exsl set math str nofn ext p2\">\n";
         if (c.useImport) {
             s += "<xsl:import href=\"imp1.xsl\"/>\n";
